@@ -43,7 +43,7 @@ pub fn stream_text() -> BoxedStrategy<String> {
     prop_oneof![
         7 => prop::sample::select(vec![
             "", "a", "é", "x=é", "é=x", "💖", "日本", "a b", "=", "ßa", "aß", "1.0", "€uro", "x€", "\u{7ff}\u{800}\u{ffff}\u{10000}",
-            "\u{feff}", "\u{feff}x", "x\u{feff}y", "\\n",
+            "\u{feff}", "\u{feff}x", "x\u{feff}y", "\\n", "trail ", "tab\t", " lead", " ", "a  b", "sha1 00", "x \t",
             "pkg-1.0", "cat/pkg",
         ])
         .prop_map(String::from),
@@ -99,6 +99,14 @@ pub fn assignment(txt: fn() -> BoxedStrategy<String>) -> BoxedStrategy<Assignmen
                 Some(Val::S(s)) => s.clone(),
                 _ => String::new(),
             };
+            // FILE_CKSUM is "<digest name> <hash>"; the name comes in any letter case
+            if let Some(Val::S(c)) = a.get(&6).cloned() {
+                if c.len() % 3 == 0 {
+                    let names = ["SHA1", "sha1", "Sha1", "sha256", "SHA256", "BLAKE2s", "blake2s", "BLAKE2S", "rmd160", "RMD160", "md5", "Md5", "sha512", "SHA3", "cksum"];
+                    let n = names[(c.len() / 3) % names.len()];
+                    a.insert(6, Val::S(format!("{} {}", n, if c.is_empty() { "da39a3ee5e6b4b0d3255bfef95601890afd80709" } else { c.as_str() })));
+                }
+            }
             if let Some(Val::S(f)) = a.get(&7).cloned() {
                 match f.len() % 4 {
                     0 => {
